@@ -3,8 +3,9 @@
 ops
   bb            SourceSpectrum(BlackBody1D | BlackBodyNorm1D, temperature=T)(w), .model.lambda_max,
                 .integrate('analytical')                            -> model op "bb"
-  thermal       ThermalSpectralElement(Empirical1D, T, fill, points, lookup_table).thermal_source()(w)
-                                                                    -> model op "thermal"
+  thermal       ThermalSpectralElement(Empirical1D, T, fill, points, lookup_table).thermal_source()(w), then a
+                history on the same element: assignments to temperature / beam_fill_factor interleaved with
+                thermal_source() queries                            -> model op "thermal"
   thermal_file  ThermalSpectralElement.from_file(<scratch FITS>, temperature_key, beamfill_key) and its
                 thermal source                                      -> model op "thermal_file"
   bb_laws       Wien peak and Stefan-Boltzmann integral on fine grids (oracle only, no model counterpart)
@@ -136,10 +137,44 @@ def mk_thermal(case):
                                   points=floats(case['pts']), lookup_table=floats(case['vals']))
 
 
-def thermal_outcome(th, w):
-    return {'temp': float(th.temperature.to_value('K')), 'fill': float(th.beam_fill_factor),
-            'emis': [float(x) for x in np.atleast_1d(th(w).value)],
-            'sample': guarded(lambda: th.thermal_source()(w).value)}
+def query(th, w):
+    """one `thermal_source()` query on the element as it is now: its attributes, the meta of the returned source
+    and the source sampled at w"""
+    def f():
+        sp = th.thermal_source()
+        return {'meta_temp': float(sp.meta['temperature'].to_value('K')),
+                'meta_fill': float(sp.meta['beam_fill_factor']), 'sample': guarded(lambda: sp(w).value)}
+    o = guarded(f)
+    o = o['ok'] if 'ok' in o else {'sample': o}
+    o['temp'] = float(th.temperature.to_value('K'))
+    o['fill'] = float(th.beam_fill_factor)
+    return o
+
+
+def run_steps(th, w, steps):
+    """the history on ONE element object: assignments to the attributes interleaved with queries"""
+    import astropy.units as u
+    hist = []
+    for st in steps:
+        if st['act'] == 'set_T':
+            v = float(unq(st['tval']))
+            th.temperature = v if st['tform'] == 'number' else v * u.Unit(st['tform'])
+        elif st['act'] == 'set_fill':
+            f = float(unq(st['fill']))
+            th.beam_fill_factor = f * u.dimensionless_unscaled if st.get('quantity') else f
+        else:
+            hist.append(query(th, w))
+    return hist
+
+
+def thermal_outcome(th, w, case):
+    out = {'temp': float(th.temperature.to_value('K')), 'fill': float(th.beam_fill_factor),
+           'emis': [float(x) for x in np.atleast_1d(th(w).value)]}
+    if case.get('fresh_query', True):
+        o = query(th, w)
+        out.update({'sample': o['sample'], 'meta_temp': o.get('meta_temp'), 'meta_fill': o.get('meta_fill')})
+    out['history'] = run_steps(th, w, case.get('steps', []))
+    return out
 
 
 def impl_thermal(case):
@@ -149,7 +184,7 @@ def impl_thermal(case):
         with warnings.catch_warnings():
             warnings.simplefilter('ignore')
             th = mk_thermal(case)
-            return thermal_outcome(th, w)
+            return thermal_outcome(th, w, case)
     except Exception as e:  # noqa
         return {'err': core.exc_name(e), 'msg': str(e)[:200]}
 
@@ -209,8 +244,7 @@ def impl_thermal_file(case):
 
     def f():
         th = ThermalSpectralElement.from_file(fits_path(case), **kw)
-        o = thermal_outcome(th, w)
-        return {'temp': o['temp'], 'fill': o['fill'], 'sample': o['sample'], 'emis': o['emis']}
+        return thermal_outcome(th, w, case)
     try:
         return guarded(f)
     finally:
@@ -283,13 +317,26 @@ def model_case(case):
                 'tscale': q(TFORMS[case['tform']]), 'w': case['w']}
     if op == 'thermal':
         return {'op': 'thermal', 'const': K, 'tval': case['tval'], 'tscale': q(TFORMS[case['tform']]),
-                'fill': case['fill'], 'pts': case['pts'], 'vals': case['vals'], 'w': case['w']}
+                'fill': case['fill'], 'pts': case['pts'], 'vals': case['vals'], 'w': case['w'],
+                'steps': model_steps(case)}
     if op == 'thermal_file':
         return {'op': 'thermal_file', 'const': K, 'is_fits': case['is_fits'], 'hdr': case['hdr'],
                 'tkey': case['tkey_arg'] if case['tkey_arg'] is not None else 'DEFT',
                 'bkey': case['bkey_arg'] if case['bkey_arg'] is not None else 'BEAMFILL',
-                'pts': case['pts'], 'vals': case['vals'], 'w': case['w']}
+                'pts': case['pts'], 'vals': case['vals'], 'w': case['w'], 'steps': model_steps(case)}
     return None
+
+
+def model_steps(case):
+    out = []
+    for st in case.get('steps', []):
+        if st['act'] == 'set_T':
+            out.append({'act': 'set_T', 'tval': st['tval'], 'tscale': q(TFORMS[st['tform']])})
+        elif st['act'] == 'set_fill':
+            out.append({'act': 'set_fill', 'fill': st['fill']})
+        else:
+            out.append({'act': 'query'})
+    return out
 
 
 def compare(case, o, m):
@@ -297,6 +344,12 @@ def compare(case, o, m):
         # `BaseSpectrum.integrate` first validates the model's default sampling set, which does not exist for
         # T <= 0 (outside the property's domain); only sampling and lambda_max are compared there
         m = {k: v for k, v in m.items() if k != 'integrate'}
+    if case['op'] in ('thermal', 'thermal_file') and not case.get('fresh_query', True):
+        # no query was made on the fresh element: the model's value for it has no counterpart
+        if 'ok' in m:
+            m = {'ok': {k: v for k, v in m['ok'].items() if k != 'sample'}}
+        elif 'err' not in m:
+            m = {k: v for k, v in m.items() if k != 'sample'}
     return same(o, m, rtol=1e-9)
 
 
@@ -358,22 +411,65 @@ def oracle_bb(rep, case, out):
                         case, out)
 
 
-def oracle_thermal_values(rep, case, o, t, fill, tag):
+def check_product(rep, case, out, s, emis, t, fill, sig, what):
     """thermal source = B(T) x sr/arcsec^2 x fill x emissivity at every wavelength"""
     w = floats(case['w'])
-    s = o['sample']
     if 'err' in s:
-        rep.oracle_fail('%s:sample:%s' % (tag, s['err']), 'sampling the thermal source raised %s' % s, case, o)
+        rep.oracle_fail('%s:sample:%s' % (sig, s['err']), '%s: sampling the thermal source raised %s' % (what, s), case, out)
         return
-    for i, (lam, v, em) in enumerate(zip(w, s['ok'], o['emis'])):
+    for i, (lam, v, em) in enumerate(zip(w, s['ok'], emis)):
         expect = planck_photlam(lam, t) * SR_PER_ARCSEC2 * fill * em
         if boltz_x(lam, t) > XMAX or (expect != 0 and abs(expect) < TINY):
             continue
         if not rel(v, expect):
-            rep.oracle_fail('%s:pointwise-product:value-differs' % tag,
-                            'sample %d at %r A: thermal source %r, B(T) x sr/arcsec2 x fill x emissivity = %r' % (
-                                i, lam, v, expect), case, o)
+            rep.oracle_fail('%s:pointwise-product:value-differs' % sig,
+                            '%s: sample %d at %r A: thermal source %r, B(T=%r) x sr/arcsec2 x fill(%r) x emissivity = %r '
+                            '(ratio %r)' % (what, i, lam, v, t, fill, expect, v / expect if expect else None), case, out)
             return
+
+
+def check_query(rep, case, out, qo, emis, t, fill, tag, label, what):
+    """one query against the element's CURRENT attributes (t, fill): attributes as assigned, meta of the
+    returned source, pointwise product"""
+    sig = '%s:%s' % (tag, label)
+    if not rel(qo['temp'], t) or qo['fill'] != fill:
+        rep.oracle_fail('%s:attributes:not-as-assigned' % sig,
+                        '%s: element has T=%r K, fill=%r; assigned T=%r K, fill=%r' % (what, qo['temp'], qo['fill'], t, fill),
+                        case, out)
+        return
+    if 'meta_temp' in qo and qo['meta_temp'] is not None and (qo['meta_temp'] != qo['temp'] or qo['meta_fill'] != qo['fill']):
+        rep.oracle_fail('%s:meta:not-current' % sig,
+                        '%s: source meta T=%r fill=%r, element T=%r fill=%r' % (
+                            what, qo['meta_temp'], qo['meta_fill'], qo['temp'], qo['fill']), case, out)
+    check_product(rep, case, out, qo['sample'], emis, t, fill, sig, what)
+
+
+def check_history(rep, case, out, o, t, fill, tag):
+    """replay the case's history: after every query the source must be the product for the attribute values
+    assigned last (the element as it is when asked), whatever was assigned or asked before"""
+    since, asked = set(), False
+    if case.get('fresh_query', True):
+        check_query(rep, case, out, {k: o.get(k) for k in ('temp', 'fill', 'meta_temp', 'meta_fill', 'sample')},
+                    o['emis'], t, fill, tag, 'fresh', 'query 0 (fresh element)')
+        asked = True
+    hist = list(o.get('history', []))
+    nq = 0
+    for k, st in enumerate(case.get('steps', [])):
+        if st['act'] == 'set_T':
+            t = float(unq(st['tval'])) * float(TFORMS[st['tform']])
+            since.add('set_T')
+        elif st['act'] == 'set_fill':
+            fill = float(unq(st['fill']))
+            since.add('set_fill')
+        else:
+            if nq >= len(hist):
+                rep.oracle_fail('%s:history:missing-result' % tag, 'query at step %d has no result' % k, case, out)
+                return
+            label = ('after-' + '+'.join(sorted(since))) if since else ('repeat' if asked else 'fresh')
+            check_query(rep, case, out, hist[nq], o['emis'], t, fill, tag, 'history:' + label,
+                        'step %d (query %s)' % (k, label))
+            nq += 1
+            since, asked = set(), True
 
 
 def oracle_thermal(rep, case, out):
@@ -387,7 +483,7 @@ def oracle_thermal(rep, case, out):
                         'temperature %r K for input %r %s' % (out['temp'], float(unq(case['tval'])), case['tform']), case, out)
     if out['fill'] != fill:
         rep.oracle_fail('thermal:beam_fill_factor:changed', 'beam_fill_factor %r for input %r' % (out['fill'], fill), case, out)
-    oracle_thermal_values(rep, case, out, t, fill, 'thermal')
+    check_history(rep, case, out, out, t, fill, 'thermal')
 
 
 def caller_key(case, which):
@@ -418,8 +514,9 @@ def oracle_thermal_file(rep, case, out):
                         'beam_fill_factor %r, keyword %s %s (BEAMFILL card: %s)' % (
                             o['fill'], bk, 'holds %r' % hdr[bk] if bk in hdr else 'is absent so 1 is expected',
                             hdr.get('BEAMFILL', 'absent')), case, out)
-    # the loaded element's thermal source is the pointwise product with what was loaded
-    oracle_thermal_values(rep, case, o, o['temp'], o['fill'], 'from_file')
+    # the loaded element's thermal source is the pointwise product with what was loaded, and follows later
+    # assignments
+    check_history(rep, case, out, o, o['temp'], o['fill'], 'from_file')
 
 
 def oracle_laws(rep, case, out):
@@ -559,12 +656,35 @@ def gen_fill(rng):
     return rng.choice([1.0, 0.5, round(rng.uniform(0.001, 1.0), 4), rng.uniform(0.001, 2.0), 2.0])
 
 
+def gen_steps(rng, nmax):
+    """a short history on one element: queries interleaved with assignments; ends with a query"""
+    steps = []
+    for _ in range(rng.randint(1, nmax)):
+        r = rng.random()
+        if r < 0.45:
+            steps.append({'act': 'query'})
+        elif r < 0.7:
+            tval, tform = gen_temp(rng)
+            steps.append({'act': 'set_T', 'tval': q(tval), 'tform': tform})
+        else:
+            steps.append({'act': 'set_fill', 'fill': q(gen_fill(rng)), 'quantity': rng.random() < 0.3})
+    if steps[-1]['act'] != 'query':
+        steps.append({'act': 'query'})
+    return steps
+
+
+def steps_tmin(steps, t):
+    return min([t] + [float(unq(st['tval'])) * float(TFORMS[st['tform']]) for st in steps if st['act'] == 'set_T'])
+
+
 def gen_thermal(rng, K, nmax):
     tval, tform = gen_temp(rng)
     if tform == 'kK' and rng.random() < 0.5:
         tform, tval = 'K', tval * 1000
     case = {'op': 'thermal', 'tval': q(tval), 'tform': tform, '_const': K}
-    t = temp_kelvin(case)
+    case['steps'] = gen_steps(rng, 6) if rng.random() < 0.8 else []
+    case['fresh_query'] = rng.random() < 0.75
+    t = steps_tmin(case['steps'], temp_kelvin(case))
     pts, vals = gen_table(rng, nmax)
     case.update({'pts': qs(pts), 'vals': qs(vals), 'fill': q(gen_fill(rng)), 'fill_quantity': rng.random() < 0.3,
                  'w': qs(gen_table_waves(rng, t, pts, rng.randint(1, 8)))})
@@ -637,7 +757,9 @@ def gen_file(rng, K, nmax, scratch, idx):
             'mode': 't:%s b:%s' % (mode_t, mode_b), 'pts': qs(pts), 'vals': qs(vals)}
     # temperature the source will have if loading succeeds (for choosing wavelengths away from underflow):
     # the coldest card, to stay clear of underflow whichever card is read
-    tmin = min([float(unq(v)) for k, v, _ in cards if float(unq(v)) >= 3.0] + [t])
+    case['steps'] = gen_steps(rng, 5) if rng.random() < 0.6 else []
+    case['fresh_query'] = rng.random() < 0.75
+    tmin = steps_tmin(case['steps'], min([float(unq(v)) for k, v, _ in cards if float(unq(v)) >= 3.0] + [t]))
     case['w'] = qs(gen_table_waves(rng, tmin, pts, rng.randint(1, 6)))
     return case
 
@@ -654,7 +776,7 @@ def tags(c, o):
     if op == 'bb':
         return ['bb:' + c['kind'], 'bb:T as ' + c['tform'], 'bb:class:' + c['class']]
     if op == 'thermal':
-        return ['thermal', 'thermal:T as ' + c['tform']]
+        return ['thermal', 'thermal:T as ' + c['tform'], 'thermal:history steps=%d' % min(len(c.get('steps', [])), 7)]
     if op == 'thermal_file':
         return ['thermal_file', 'thermal_file:' + c['mode'], 'thermal_file:outcome:' + (o.get('err') or 'ok')]
     return [op]
@@ -715,7 +837,10 @@ def run(rep):
                 '1e-6..3, for monotonicity; ~2.6%% cases outside the domain (invalid wavelengths, T<0, T=0) for the model only. '
                 'thermal: emissivity tables of 2..%d points (ascending/descending, tapered, negative entries, values in [0,1]) '
                 'x beam filling factors (numbers or dimensionless Quantities) x T forms, sampled inside, on knots and beyond '
-                'both ends. thermal_file: scratch FITS files whose table header carries temperature / beam filling factor '
+                'both ends; on 80%% (files: 60%%) of the elements a history of up to 7 steps on the ONE element object - '
+                'thermal_source() queries interleaved with assignments to temperature (numbers, K, mK, kK) and '
+                'beam_fill_factor (numbers, Quantities), repeated queries, 25%% without a query on the fresh element - '
+                'every query compared with the model and the formula for the attribute values assigned last. thermal_file: scratch FITS files whose table header carries temperature / beam filling factor '
                 'under the default or caller-named keywords (any letter case), with distractor DEFT / BEAMFILL cards, missing '
                 'cards, non-FITS names. bb_laws: argmax of the energy density on a 4001-point grid around lambda_max; '
                 'trapezoid over x = hc/(lambda kT) in 0.004..60 on a log grid vs the analytic integral. '
